@@ -13,7 +13,7 @@ Import ListNotations.
 
 Inductive pyexn :=
 | TypeError | ValueError | ZeroDivisionError | UnboundLocalError | IndexError | KeyError
-| NotImplementedError | RuntimeError | AttributeError.
+| NotImplementedError | RuntimeError | AttributeError | NoOverlapError.
 
 Inductive res (A : Type) := Ok (a : A) | Raise (e : pyexn).
 Arguments Ok {A} a.
